@@ -7,6 +7,7 @@ scalars x positions: (a) oracle on the real code (emit -> parse -> same value, s
 import asyncio
 import itertools
 import json
+import re
 import os
 import random
 import tempfile
@@ -92,7 +93,21 @@ def kf_nfc_escape_compose(case) -> bool:
     return False
 
 
-CLASSES = {"kf_nfc_escape_compose": kf_nfc_escape_compose}
+_ARGLESS = "(?:REQ|OPT|DIR|APPEND_ONLY|DATE|ISO8601)"
+_HOLO_LOOKALIKE = re.compile(r"[A-Za-z_][A-Za-z0-9_.\-]*(?<!-)(?:[⊕⧺⇌∨→@][A-Za-z_][A-Za-z0-9_.\-]*(?<!-))*(?:∧" + _ARGLESS + r")+\Z")
+
+
+def kf_bare_holographic_lookalike(case) -> bool:
+    """C04N1: an expression-shaped string (written bare by the emitter) whose tail from the first constraint operator on is a
+    chain of argument-less constraint names (`A∧REQ`, `A⊕B∧OPT∧DATE`), as the ONLY item of a list or the value of the only
+    inline-map item of a list: the bracketed text `[A∧REQ]` is a holographic pattern to the reader (bare examples are legal)."""
+    v = case["value"]
+    if not (isinstance(v, dict) and "s" in v) or case["key"] in ("PATTERN", "REGEX"):
+        return False
+    return case["pos"] in ("list1", "imap") and _HOLO_LOOKALIKE.match(v["s"]) is not None
+
+
+CLASSES = {"kf_nfc_escape_compose": kf_nfc_escape_compose, "kf_bare_holographic_lookalike": kf_bare_holographic_lookalike}
 
 
 def eval_chunk(chunk):
@@ -183,6 +198,25 @@ def gen_cases(ctx):
         for pos, key in POSITIONS:
             cases.append(({"s": w}, pos, key))
     ctx.count("lookalike_words", len(words))
+    # expression-shaped strings (the emitter writes them bare): operands = plain words and every constraint / keyword name,
+    # joined by every operator, 2 and 3 operands — in every position (the reader must not take them for anything else)
+    operands = ["A", "a.b-c", "_x", "REQ", "OPT", "DIR", "APPEND_ONLY", "DATE", "ISO8601", "ENUM", "CONST", "TYPE", "REGEX", "RANGE",
+                "MAX_LENGTH", "BOOLEAN", "NUMBER", "SELF", "META", "END"]
+    exprs = set()
+    for op in "⊕⧺⇌∧∨→@":
+        for x in operands[:3]:
+            for y in operands:
+                exprs.add(x + op + y)
+                exprs.add(y + op + x)
+    for op1 in "∧⊕→":
+        for op2 in "∧⊕→":
+            for y in ("REQ", "OPT", "DATE", "b", "ENUM"):
+                for z in ("REQ", "ISO8601", "b", "§SELF"):
+                    exprs.add("A" + op1 + y + op2 + z)
+    for w in sorted(exprs):
+        for pos, key in POSITIONS:
+            cases.append(({"s": w}, pos, key))
+    ctx.count("expression_shaped_strings", len(exprs))
     ctx.count("ints", len(ints)); ctx.count("floats", len(fl))
     return cases
 
